@@ -109,12 +109,8 @@ Proof.
   - lia.
   - lia.
   - rewrite S4. unfold f. rewrite ztake_app_exact. exact Hm.
-  - rewrite S4. destruct (Z.eq_dec (zlen body) 0) as [E|E]; [left; exact E|right].
-    destruct (Z_lt_dec (zlen body) 8).
-    + unfold f, tag_bytes, ape_hdr. cbv zeta. rewrite <- !app_assoc. apply short_body_marker. lia.
-    + unfold is_marker, f. rewrite rd_app_l by lia. apply (no_marker_probe body 0 Hm).
   - unfold ape_mut_load. rewrite Hl. unfold loc_tag. rewrite L4, L5, L6, S1, S2.
-    replace (zlen B + 32 - 32) with (zlen B) by lia. destruct (zlen B <? 0) eqn:C; [lia|]. rewrite S5.
+    replace (zlen B + 32 - 32) with (zlen B) by lia. rewrite S5.
     unfold its_fit in Hf. apply andb_true_iff in Hf as [Hf _]. apply andb_true_iff in Hf as [Hf1 _].
     destruct its as [|it its'].
     + reflexivity.
